@@ -24,11 +24,24 @@ def make_net_transport():
             self.wire = []              # every frame written, serialized, in order
             self.peer = None
             self.closed = False
+            self.gated = False          # a blocked writer: send_frame waits for a permit
+            self._permits = 0
+            self._waiter = None
 
         def requires_length_header(self):
             return self.lenreq
 
+        def permit(self, n=1):
+            self._permits += n
+            if self._waiter is not None and not self._waiter.done():
+                self._waiter.set_result(None)
+
         async def send_frame(self, frame):
+            while self.gated and self._permits == 0:
+                self._waiter = asyncio.get_event_loop().create_future()
+                await self._waiter
+            if self.gated:
+                self._permits -= 1
             b = frame.serialize()
             self.wire.append(b)
             if self.lenreq:
